@@ -36,12 +36,13 @@ theorem lifo (ids : List Nat) (fuel : Nat) (ts : TS)
     (h : ts.cleanups = ids.map (fun i => CTree.emit i .done)) (hf : ids.length ≤ fuel) :
     (runStack fuel ts).evs = ids.map Ev.user ∧ (runStack fuel ts).err = none := runStack_lifo ids fuel ts h hf
 
-/-- a panicking callback does not stop the others -/
+/-- a panicking callback does not stop the others (the last failure is reported; invalid data raised by a
+    callback never replaces a failure: `pickErr`) -/
 theorem panic_does_not_stop_cleanups (e : Err) (rest : List CTree) (fuel : Nat) (ts : TS)
     (h : ts.cleanups = .throw e :: rest) :
     (runStack (fuel + 1) ts).evs = (runStack fuel { ts with cleanups := rest }).evs ∧
     (runStack (fuel + 1) ts).ts = (runStack fuel { ts with cleanups := rest }).ts ∧
-    (runStack (fuel + 1) ts).err = (match (runStack fuel { ts with cleanups := rest }).err with | some e' => some e' | none => some e) :=
+    (runStack (fuel + 1) ts).err = pickErr (some e) (runStack fuel { ts with cleanups := rest }).err :=
   runStack_after_panic e rest fuel ts h
 
 /-- a body that registers A, then B (B registers C while running), with a context: order is
@@ -67,10 +68,17 @@ theorem cleanup_order_source :
     Rapid.Generated.order_cleanup = ["call t.cleaning.Store", "defer t.cleaning.Store", "defer{t.mu.Lock}",
       "call t.mu.Lock", "if", "call t.mu.Unlock", "for"] := by decide
 
-/-- `customGen.maybeValue`: fresh inner T with its parent, deferred cleanup, deferred recover -/
+/-- `customGen.maybeValue`: fresh inner T with its parent, deferred cleanup (which re-raises invalid data recorded
+    from a cleanup function unless the function is failing), deferred recover -/
 theorem maybeValue_order_source :
-    Rapid.Generated.order_maybeValue = ["assign", "call newT", "assign", "defer t.cleanup", "defer{recover}", "return"] := by decide
+    Rapid.Generated.order_maybeValue = ["assign", "call newT", "assign", "assign", "defer t.cleanupCustom", "defer{recover}", "return"] := by decide
 
-theorem example_order_source : Rapid.Generated.order_example = ["defer t.cleanup", "for"] := by decide
+theorem example_order_source : Rapid.Generated.order_example = ["assign", "defer t.cleanupCustom", "for"] := by decide
+
+/-- `T.cleanupCustom`: all cleanups first, then the recorded invalid data; `T.runCleanupFunc`: the recover that
+    records invalid data is deferred before the cleanup function is called -/
+theorem cleanupCustom_order_source :
+    Rapid.Generated.order_cleanupCustom = ["call t.cleanup", "if"] ∧
+    Rapid.Generated.order_runCleanupFunc = ["defer{recover}", "call f"] := by decide
 
 end Rapid.C10
